@@ -10,7 +10,7 @@ THEOREMS = ["GmqttVerif.Limiter.poll_ids_nonzero_distinct_unmarked", "GmqttVerif
             "GmqttVerif.Limiter.release_frees", "GmqttVerif.Limiter.poll_takes_next_free",
             "GmqttVerif.Limiter.released_id_reusable", "GmqttVerif.Limiter.poll_terminates",
             "GmqttVerif.Limiter.used_eq_marked_Statement_false", "GmqttVerif.Limiter.window_bound_Statement_false"]
-COMPS = ["limiter"]
+COMPS = ["limiter", "broker"]
 MAXID = 65535
 
 
@@ -314,7 +314,18 @@ def streams(tier):
     corpus = [gen_long(i) for i in range(nlong)]
     return [(core.Stream("limiter", "limiter", gen, predicate, nontrivial, keep_prefix=1, corpus=corpus, timeout=600), n),
             # own process: the wedged poll keeps spinning in the driver until it exits
-            (core.Stream("limiter-wedge", "limiter", lambda rng: SPIN_CASE, predicate, None, keep_prefix=1, timeout=120), 1)]
+            (core.Stream("limiter-wedge", "limiter", lambda rng: SPIN_CASE, predicate, None, keep_prefix=1, timeout=120), 1),
+            _wire(tier)]
+
+def _wire(tier):
+    from . import c03wire
+    return c03wire.stream(tier)
+
+def _f07(info):
+    from . import c03wire
+    return c03wire.rec_f07(info)
+
+RECOGNISERS = {"retransmission_ignores_new_receive_maximum": _f07}
 
 
 def run(r):
